@@ -84,6 +84,8 @@ func cmdRun(args []string) {
 	timeout := fs.Int("timeout", 10000, "solver timeout ms")
 	verbose := fs.Bool("v", false, "print candidates")
 	prof := fs.String("cpuprofile", "", "write cpu profile")
+	vals := fs.String("vals", "", "concrete mode: name=hex,name=hex")
+	trace := fs.Bool("trace", false, "trace calls")
 	fs.Parse(args)
 	if *prof != "" {
 		f, _ := os.Create(*prof)
@@ -101,6 +103,15 @@ func cmdRun(args []string) {
 	engines := makeEngines(pg, *workers, *timeout)
 	fmt.Printf("%d engines initialised in %v\n", len(engines), time.Since(t0))
 	run := &HarnessRun{HarnessSpec: HarnessSpec{Name: *name, Params: parseParams(*params), MaxSteps: *steps, MaxPaths: *maxPaths}, fn: fn}
+	if *vals != "" {
+		run.Fixed = map[string]uint64{}
+		for _, kv := range strings.Split(*vals, ",") {
+			p := strings.SplitN(kv, "=", 2)
+			v, _ := strconv.ParseUint(p[1], 16, 64)
+			run.Fixed[p[0]] = v
+		}
+	}
+	run.Trace = *trace
 	explore(pg, run, engines, 1, time.Now().Add(24*time.Hour))
 	printRun(run, engines, *verbose)
 }
